@@ -59,6 +59,19 @@ def problem_of(desc):
             return u0 * e / (1.0 - u0 + u0 * e)
 
         return dict(f=f, order=1, d=len(a), t0=0.0, u0=[jnp.asarray(u0)], exact=exact, field=None)
+    if name == "decay2":
+        # u' = -lam u: the solution spans many orders of magnitude, so atol and rtol play different roles
+        lam = np.asarray(desc.get("lam", [1.0, 1.5]))
+        u0 = np.asarray(desc.get("u0", [1.0, 2.0]))
+        lj = jnp.asarray(lam)
+
+        def f(u, *, t):
+            return -lj * u
+
+        def exact(t):
+            return u0 * np.exp(-lam * t)
+
+        return dict(f=f, order=1, d=len(lam), t0=0.0, u0=[jnp.asarray(u0)], exact=exact, field=None)
     if name == "linear_forced":
         # u' = -u + sin t ; w' = -2 w + u
         def f(y, *, t):
